@@ -36,7 +36,11 @@ RULE = ('one run = 2..4 caller threads issuing 1..3 requests each (distinct '
         '?wsdl) against ONE WsgiApplication under one seeded schedule: 0..4 '
         'PCT change points over the run length plus probabilistic switching '
         '(p in [0.15, 0.7]) at every line executed inside one region of the '
-        'shared-state catalogue. Runs come in groups of 8 sharing workload and '
+        'shared-state catalogue and at the line reached when a region function '
+        'returns (bytecode granularity inside the region in a share of the '
+        'runs; every shared region at once, at a fifth of the rate, in a '
+        'quarter of them), and at the seam points around lxml schema '
+        'validation. Runs come in groups of 8 sharing workload and '
         'configuration and differing in schedule. Non-trivial = at least one '
         'switch happened inside a catalogue region or at a change point while '
         'two callers were in flight; distinct = distinct ordered lists of '
@@ -46,18 +50,22 @@ COMPONENTS = {
              'spyne.interface.* incl. Wsdl11 / XmlSchema builders',
              'spyne.protocol.* with their _attrcache/_sortcache', 'spyne.util.'
              'memo / cdict / oset / odict', 'spyne.context', 'spyne.'
-             'application', 'lxml validation (atomic step)'],
+             'application', 'lxml schema validation itself (libxml2)'],
     'stub': ['thread scheduler (sim.sched): baton passing, sys.monitoring LINE '
              'events as pre-emption points', 'SimLock / SimRLock in place of '
              'threading.Lock / RLock created by spyne', 'SimClock for spyne.'
              'context.time', 'seeded gc.collect() instead of automatic GC',
              'WSGI gateway per caller', 'user functions (deterministic in '
-             'their arguments)'],
+             'their arguments)', 'sim.sched.SchemaProxy: the Python-visible '
+             'glue of lxml.etree.XMLSchema (__call__ / assertValid / error_log)'
+             ' re-stated in Python with seam points where lxml runs without '
+             'the GIL'],
 }
 ASSUMPTIONS = [
-    'pre-emption at source-line granularity inside spyne; C-level calls (lxml, '
-    'json, yaml, msgpack) are atomic steps, as they are under the GIL unless '
-    'they release it',
+    'pre-emption at source-line granularity inside spyne (bytecode inside the '
+    'targeted region); C-level calls (json, yaml, msgpack, lxml parsing and '
+    'serialisation) are atomic steps, as they are under the GIL; lxml schema '
+    'validation, which releases it, is bracketed by seam points',
     'at most 4 callers x 3 requests and 4 uniform change points per run',
     'responses are compared in canonical form (prefix spelling, 0x addresses '
     'masked)',
